@@ -183,6 +183,26 @@ def fresh_replay(prop, path, timeout=300):
     return p.returncode, p.stdout + p.stderr
 
 
+def cmd_minimise(prop, raw_path, budget_s):
+    """Minimise a raw replay file (own process; see cmd_check)."""
+    with open(raw_path) as f:
+        body = json.load(f)
+    exp = body["expect"]
+    small = minimise(prop, body, exp["oracle"], exp["signature"], budget_s)
+    v = {"oracle": exp["oracle"], "signature": exp["signature"], "detail": body.get("detail", "")}
+    # keep the detail of the minimised run
+    try:
+        r = replay_run(prop, small)
+        for x in r.viols:
+            if x.prop == prop and x.oracle == exp["oracle"] and x.sig == exp["signature"]:
+                v["detail"] = str(x.detail)[:2000]
+    except Exception:
+        pass
+    mpath = write_replay(prop, small, v, body.get("seed"), body.get("index"))
+    print("MINIMISED " + mpath)
+    return 0
+
+
 def cmd_replay(prop, path):
     with open(path) as f:
         rep = json.load(f)
@@ -301,17 +321,32 @@ def cmd_check(prop, tier, seed, budget_s=None, workers=None, max_runs=None):
         raw_path = write_replay(prop, rep, v, seed, i, tag=".raw")
         path = raw_path
         try:
-            small = minimise(prop, rep, v["oracle"], v["signature"], mbudget)
-            mpath = write_replay(prop, small, v, seed, i)
-            code, out = fresh_replay(prop, mpath)
-            if code == 1 and "VIOLATION" in out:
-                path = mpath
-                os.remove(raw_path)
-            else:
-                agg["errors"].append((i, f"minimised replay did not reproduce in a fresh interpreter (exit {code}); reporting the unminimised file"))
+            # minimisation replays the history many times against code that has just been shown to
+            # misbehave (it may even corrupt memory through generated C): it runs in its own process
+            mpath = None
+            try:
+                p = subprocess.run([sys.executable, os.path.join(VERIF_DIR, "check.py"), prop, "--minimise", raw_path, "--budget", str(mbudget)], capture_output=True, text=True, timeout=mbudget * 6 + 120, cwd=VERIF_DIR)
+                got = [l for l in p.stdout.splitlines() if l.startswith("MINIMISED ")]
+                if p.returncode == 0 and got:
+                    mpath = got[0][10:].strip()
+                else:
+                    agg["notes"] = agg.get("notes", []) + [f"minimisation of run {i} ended with exit {p.returncode}; reporting the unminimised file"]
+            except subprocess.TimeoutExpired:
+                agg["notes"] = agg.get("notes", []) + [f"minimisation of run {i} timed out; reporting the unminimised file"]
+            if mpath:
+                code, out = fresh_replay(prop, mpath)
+                if code == 1 and "VIOLATION" in out:
+                    path = mpath
+                    os.remove(raw_path)
+                else:
+                    agg["errors"].append((i, f"minimised replay did not reproduce in a fresh interpreter (exit {code}); reporting the unminimised file"))
+                    mpath = None
+            if not mpath:
                 code, out = fresh_replay(prop, raw_path)
-                if not (code == 1 and "VIOLATION" in out):
-                    agg["errors"].append((i, f"unminimised replay did not reproduce either (exit {code}): {out[-500:]}"))
+                if code < 0 or code > 2:
+                    print(f"  note=replaying this file ends the interpreter with status {code} (memory corrupted by the code under test)")
+                elif not (code == 1 and "VIOLATION" in out):
+                    agg["errors"].append((i, f"unminimised replay did not reproduce (exit {code}): {out[-500:]}"))
         except Exception as e:
             agg["errors"].append((i, f"minimisation failed: {e!r}"))
         print(f"VIOLATION property={prop} replay={path}")
